@@ -123,13 +123,20 @@ func (g *GettyRemoting) GetMergedMessage(msgID int32) *message.MergedWarpMessage
 }
 
 func (g *GettyRemoting) NotifyRpcMessageResponse(rpcMessage message.RpcMessage) {
-	messageFuture := g.GetMessageFuture(rpcMessage.ID)
+	// take the future out of the map: only one response may complete it, a duplicate finds nothing
+	var messageFuture *message.MessageFuture
+	if msg, ok := g.futures.LoadAndDelete(rpcMessage.ID); ok {
+		messageFuture = msg.(*message.MessageFuture)
+	}
 	if messageFuture != nil {
 		messageFuture.Response = rpcMessage.Body
 		// todo add messageFuture.Err
 		// messageFuture.Err = rpcMessage.Err
-		messageFuture.Done <- struct{}{}
-		// client.msgFutures.Delete(rpcMessage.RequestID)
+		select {
+		case messageFuture.Done <- struct{}{}:
+		default:
+			// nobody can be waiting any more (the caller gave up), never block message processing
+		}
 	} else {
 		log.Infof("msg: {} is not found in msgFutures.", rpcMessage.ID)
 	}
